@@ -10,7 +10,7 @@ MODEL_FILES = "model files: lean/I2P/Data.lean, Mapping.lean, Kac.lean, Structs.
 
 PROPS = {
     "C01": {
-        "suites": PARSE_GROUPS,
+        "suites": PARSE_GROUPS + ",HIST",
         "assumptions": COMMON_ASSUME + [
             "for the list-of-errors readers 'accepted' means: no error other than the documented trailing-data warning",
             "ElGamal/DSA key-value checks of go-i2p/crypto are approximated in the model (clearly valid / clearly invalid keys are generated)",
@@ -18,7 +18,7 @@ PROPS = {
         "trusted_base": [MODEL_FILES],
     },
     "C03": {
-        "suites": PARSE_GROUPS,
+        "suites": PARSE_GROUPS + ",HIST",
         "assumptions": COMMON_ASSUME + ["ReadLeaseSet returns no remainder and ignores trailing bytes: outside the letter of C03, only its C01 extent is judged"],
         "trusted_base": [MODEL_FILES],
     },
@@ -30,7 +30,7 @@ PROPS = {
         "trusted_base": [MODEL_FILES, "checked-slice layer lean/I2P/Checked.lean refines the pure model (Props/C04.lean)"],
     },
     "C05": {
-        "suites": "STRUCT,C05",
+        "suites": "STRUCT,C05" + ",HIST",
         "assumptions": COMMON_ASSUME + [
             "signature unforgeability is computational and not a theorem; the data-flow statement (which key, which bytes, which prefix) is what is checked",
             "independent verification uses the Go standard library (Ed25519, ECDSA) and go-i2p/crypto (DSA), both outside /repo",
@@ -38,18 +38,18 @@ PROPS = {
         "trusted_base": [MODEL_FILES],
     },
     "C07": {
-        "suites": "KAC,IDENT,STRUCT",
+        "suites": "KAC,IDENT,STRUCT" + ",HIST",
         "assumptions": COMMON_ASSUME + ["SHA-256 is a parameter of the model (its value is carried on the op line, computed by crypto/sha256)",
                                         "collision resistance is not assumed by any theorem"],
         "trusted_base": ["model files: lean/I2P/Kac.lean, Identity.lean, Base.lean"],
     },
     "C08": {
-        "suites": "KAC,STRUCT",
+        "suites": "KAC,STRUCT" + ",HIST",
         "assumptions": COMMON_ASSUME + ["aliasing is a property of Go memory, not of byte values: it is decided by the scribble oracle on the real library; the model states which fields are copies"],
         "trusted_base": [MODEL_FILES],
     },
     "C09": {
-        "suites": "KAC,STRUCT",
+        "suites": "KAC,STRUCT" + ",HIST",
         "gen": True,
         "assumptions": COMMON_ASSUME,
         "trusted_base": [MODEL_FILES, "translator /verif/extract and the exhaustive sweep `harness observe` (Gen/*.lean)"],
@@ -103,7 +103,7 @@ PROPS = {
         "trusted_base": ["model files: lean/I2P/NetAddr.lean, lean/I2P/RouterAddrAcc.lean, lean/I2P/Mapping.lean, lean/I2P/Data.lean"],
     },
     "C19": {
-        "suites": PARSE_GROUPS + ",C13,C17,BUILDER,CTWIN,TWIN",
+        "suites": PARSE_GROUPS + ",C13,C17,BUILDER,CTWIN,TWIN" + ",HIST",
         "assumptions": COMMON_ASSUME,
         "trusted_base": [MODEL_FILES],
     },
@@ -171,7 +171,7 @@ PROPS = {
         "trusted_base": [MODEL_FILES, "spec transcriptions: harness/spec.go, lean/I2P/Spec/Codec.lean, lean/I2P/Spec/Structs.lean, lean/I2P/Tables.lean"],
     },
     "C18": {
-        "suites": "C18",
+        "suites": "C18" + ",HIST",
         "race": True,     # harness built with -race and run as .build/harness-race (GORACE=halt_on_error=1)
         "gen": True,      # lean/I2P/Gen/Effects.lean is re-extracted from the SSA form of /repo on every run
         "claim": "proof (partial)",
